@@ -559,7 +559,8 @@ theorem firstOk_lower (n t : Str) (htag : isTagPart n = true) (h : firstLower t 
   | cons x xs =>
     simp only [List.head?_cons, Option.some.injEq] at hc
     subst hc
-    simpa using h
+    simp only [↓reduceIte]
+    exact h
 
 /-! ### the remaining part families -/
 
@@ -600,6 +601,30 @@ theorem pos_part (n f : Str) (get : VInfo → Nat) (hf : lookup n Gen.partFields
       rw [allDigits_cons] at hd
       exact hc_posInt c t k hd.1 (hh c t rfl) hd.2 (hk hnd)
 
+theorem partText_BUILD (v : VInfo) : partText v "BUILD".toList = some v.bid := by
+  have hf : lookup "BUILD".toList Gen.partFields = some "bid".toList := by decide
+  have hkd : lookup "BUILD".toList Gen.partFormats = some .str := by decide
+  have hg : v.get "bid".toList = .str v.bid := rfl
+  simp only [partText, hf, hkd, hg]; rfl
+
+theorem partText_BLD (v : VInfo) : partText v "BLD".toList = some (natToStr (strToNat v.bid)) := by
+  have hf : lookup "BLD".toList Gen.partFields = some "bid".toList := by decide
+  have hkd : lookup "BLD".toList Gen.partFormats = some .int := by decide
+  have hg : v.get "bid".toList = .str v.bid := rfl
+  simp only [partText, hf, hkd, hg]; rfl
+
+theorem partText_TAG (v : VInfo) : partText v "TAG".toList = some v.tag := by
+  have hf : lookup "TAG".toList Gen.partFields = some "tag".toList := by decide
+  have hkd : lookup "TAG".toList Gen.partFormats = some .str := by decide
+  have hg : v.get "tag".toList = .str v.tag := rfl
+  simp only [partText, hf, hkd, hg]; rfl
+
+theorem partText_PYTAG (v : VInfo) : partText v "PYTAG".toList = some v.pytag := by
+  have hf : lookup "PYTAG".toList Gen.partFields = some "pytag".toList := by decide
+  have hkd : lookup "PYTAG".toList Gen.partFormats = some .str := by decide
+  have hg : v.get "pytag".toList = .str v.pytag := rfl
+  simp only [partText, hf, hkd, hg]; rfl
+
 /-- BUILD: `[0-9]+` / the id verbatim -/
 theorem build_part (v : VInfo) (hb : isDigitStr v.bid = true)
     (hre : partReOf "BUILD".toList = some (.rep digitCls 1 none))
@@ -609,7 +634,7 @@ theorem build_part (v : VInfo) (hb : isDigitStr v.bid = true)
   have hrx := (Option.some.inj hrx).symm
   subst hrx
   rw [isDigitStr_iff] at hb
-  refine ⟨v.bid, by rfl, hb.1, firstOk_digits _ _ (by decide) hb.2, ?_⟩
+  refine ⟨v.bid, partText_BUILD v, hb.1, firstOk_digits _ _ (by decide) hb.2, ?_⟩
   intro k hk
   exact hc_digitsPlus _ k hb.1 hb.2 (hk hnd)
 
@@ -621,7 +646,7 @@ theorem bld_part (v : VInfo) (hpos : 1 ≤ strToNat v.bid)
   rw [hre] at hrx
   have hrx := (Option.some.inj hrx).symm
   subst hrx
-  refine ⟨natToStr (strToNat v.bid), by rfl, natToStr_ne_nil _,
+  refine ⟨natToStr (strToNat v.bid), partText_BLD v, natToStr_ne_nil _,
     firstOk_digits _ _ (by decide) (allDigits_natToStr _), ?_⟩
   intro k hk
   have hd := allDigits_natToStr (strToNat v.bid)
@@ -763,7 +788,7 @@ theorem tag_part (v : VInfo) (hok : tagOk v = true) (rx : Re) (hrx : partReOf "T
   simp only [List.all_eq_true] at h
   simp only [tagOk, List.contains_iff_mem] at hok
   have hw := h v.tag hok
-  exact ⟨v.tag, rfl, (altLits_head' tagWords v.tag [] hw).2.1,
+  exact ⟨v.tag, partText_TAG v, (altLits_head' tagWords v.tag [] hw).2.1,
     firstOk_lower _ _ (by decide) (altLits_head' tagWords v.tag [] hw).2.2,
     fun k _ => (altLits_head' tagWords v.tag k hw).1⟩
 
@@ -784,7 +809,7 @@ theorem pytag_part (v : VInfo) (hok : pytagOk v = true) (rx : Re)
     rcases hw with hw | hw
     · exact absurd hw hne
     · exact hw
-  exact ⟨v.pytag, rfl, hne, firstOk_lower _ _ (by decide) (altLits_head' pytagWords v.pytag [] hw).2.2,
+  exact ⟨v.pytag, partText_PYTAG v, hne, firstOk_lower _ _ (by decide) (altLits_head' pytagWords v.pytag [] hw).2.2,
     fun k _ => (altLits_head' pytagWords v.pytag k hw).1⟩
 
 theorem fc_MM : finCheck "MM".toList 1 12 = true := by decide +kernel
